@@ -429,20 +429,68 @@ type recClient struct {
 	mu      sync.Mutex
 	opens   []openRec
 	ltxOpen int
+	fault   *faultSpec
+}
+
+// faultSpec: the first open of one WAL segment (or of the snapshot) delivers `after` bytes of the
+// stored (compressed) stream and then fails (eof=false: a read error; eof=true: the stream ends
+// cleanly early); every later open of the same object is served completely.
+type faultSpec struct {
+	target openRec
+	after  int64
+	eof    bool
+	fired  bool
+}
+
+type faultReader struct {
+	rc    io.ReadCloser
+	left  int64
+	eof   bool
+}
+
+func (f *faultReader) Read(p []byte) (int, error) {
+	if f.left <= 0 {
+		if f.eof {
+			return 0, io.EOF
+		}
+		return 0, errors.New("read tcp: connection reset by peer")
+	}
+	if int64(len(p)) > f.left {
+		p = p[:f.left]
+	}
+	n, err := f.rc.Read(p)
+	f.left -= int64(n)
+	return n, err
+}
+func (f *faultReader) Close() error { return f.rc.Close() }
+
+func (c *recClient) maybeFault(rec openRec, rc io.ReadCloser, err error) (io.ReadCloser, error) {
+	if err != nil || c.fault == nil {
+		return rc, err
+	}
+	c.mu.Lock()
+	defer c.mu.Unlock()
+	if !c.fault.fired && c.fault.target == rec {
+		c.fault.fired = true
+		return &faultReader{rc: rc, left: c.fault.after, eof: c.fault.eof}, nil
+	}
+	return rc, nil
 }
 
 func (c *recClient) OpenSnapshotV3(ctx context.Context, generation string, index int) (io.ReadCloser, error) {
 	c.mu.Lock()
 	c.opens = append(c.opens, openRec{gen: generation, idx: index, snapshot: true})
 	c.mu.Unlock()
-	return c.ReplicaClient.OpenSnapshotV3(ctx, generation, index)
+	rc, err := c.ReplicaClient.OpenSnapshotV3(ctx, generation, index)
+	return c.maybeFault(openRec{gen: generation, idx: index, snapshot: true}, rc, err)
 }
 
 func (c *recClient) OpenWALSegmentV3(ctx context.Context, generation string, index int, offset int64) (io.ReadCloser, error) {
 	c.mu.Lock()
 	c.opens = append(c.opens, openRec{gen: generation, idx: index, off: offset})
 	c.mu.Unlock()
-	return c.ReplicaClient.OpenWALSegmentV3(ctx, generation, index, offset)
+	rc, err := c.ReplicaClient.OpenWALSegmentV3(ctx, generation, index, offset)
+	return c.maybeFault(openRec{gen: generation, idx: index, off: offset}, rc, err)
 }
 
 func (c *recClient) OpenLTXFile(ctx context.Context, level int, minTXID, maxTXID ltx.TXID, offset, size int64) (io.ReadCloser, error) {
@@ -482,8 +530,18 @@ func classify(err error) int {
 
 // runRestore runs RestoreV3 (viaRestore=false) or Restore (true) on root.
 func runRestore(h *history, root, outDir string, T int64, viaRestore bool) (o restoreObs) {
+	return runRestoreF(h, root, outDir, T, viaRestore, nil)
+}
+
+// outputLeftover: after a FAILED restore nothing may exist at the output path
+func outputLeftover(outDir string) bool {
+	_, err := os.Stat(filepath.Join(outDir, "restored.db"))
+	return err == nil
+}
+
+func runRestoreF(h *history, root, outDir string, T int64, viaRestore bool, fs *faultSpec) (o restoreObs) {
 	o.matched = -1
-	rc := &recClient{ReplicaClient: file.NewReplicaClient(root)}
+	rc := &recClient{ReplicaClient: file.NewReplicaClient(root), fault: fs}
 	out := filepath.Join(outDir, "restored.db")
 	for _, sfx := range []string{"", "-wal", "-shm", ".tmp", ".tmp-wal", ".tmp-shm"} {
 		os.Remove(out + sfx)
@@ -661,6 +719,107 @@ func historyCases(seed int64, hi int, workDir string, pool *ltxPool, thorough bo
 	emit(-1, -1, 0, h.class+"/full/latest")
 	for T := int64(1); T <= h.maxTick+1; T++ {
 		emit(-1, -1, T, h.class+"/full/ts")
+	}
+
+	// read faults while downloading (C10 for the legacy path): the first open of one object of the
+	// fault-free plan fails or ends early after k bytes of the stored stream; the outcome must be an
+	// error with nothing at the output path, or exactly the fault-free database
+	{
+		base := runRestore(h, root, outDir, 0, false)
+		if base.status == 0 {
+			var targets []openRec
+			if base.gen >= 0 && base.gen < len(h.gens) {
+				gid := h.gens[base.gen].id
+				targets = append(targets, openRec{gen: gid, idx: base.snapIdx, snapshot: true})
+				for _, op := range base.opened {
+					targets = append(targets, openRec{gen: gid, idx: int(op[0]), off: op[1]})
+				}
+			}
+			if !thorough && len(targets) > 4 {
+				// the snapshot, the first and last segment and one in between
+				mid := targets[1+r.Intn(len(targets)-2)]
+				targets = []openRec{targets[0], targets[1], mid, targets[len(targets)-1]}
+			}
+			for _, tg := range targets {
+				var p string
+				if tg.snapshot {
+					p = litestream.SnapshotPathV3(root, tg.gen, tg.idx)
+				} else {
+					p = litestream.WALSegmentPathV3(root, tg.gen, tg.idx, tg.off)
+				}
+				stored, e := os.ReadFile(p)
+				if e != nil {
+					continue
+				}
+				fi, _ := os.Stat(p)
+				// length of the stream the client hands out (decompressed)
+				var plain int64
+				{
+					var rcl io.ReadCloser
+					fc := file.NewReplicaClient(root)
+					if tg.snapshot {
+						rcl, e = fc.OpenSnapshotV3(context.Background(), tg.gen, tg.idx)
+					} else {
+						rcl, e = fc.OpenWALSegmentV3(context.Background(), tg.gen, tg.idx, tg.off)
+					}
+					if e != nil {
+						continue
+					}
+					plain, _ = io.Copy(io.Discard, rcl)
+					rcl.Close()
+				}
+				what := "segment"
+				if tg.snapshot {
+					what = "snapshot"
+				}
+				emitF := func(o restoreObs, kind string, after int64) {
+					class := h.class + "/fault/" + what + "/" + kind
+					left := int64(0)
+					if o.status != 0 && outputLeftover(outDir) {
+						left = 1
+					}
+					rs.add("v3_fault_ok", L(base.fullSx(), o.fullSx(), I(left), L(I(seed), I(int64(hi)), I(after))), I(1), class+"/spec", true)
+				}
+				// (a) a read error after k bytes of the stream the client returns
+				offs := []int64{0, 1, plain / 2, plain - 1}
+				if thorough {
+					for k := 0; k < 6 && plain > 0; k++ {
+						offs = append(offs, r.Int63n(plain))
+					}
+				}
+				for _, after := range offs {
+					if after < 0 || after >= plain {
+						continue
+					}
+					o := runRestoreF(h, root, outDir, 0, false, &faultSpec{target: tg, after: after})
+					emitF(o, "read-error", after)
+				}
+				// (b) the stored object ends early (a download that ends early / a truncated file):
+				// the compressed file is cut at k bytes, below the client's decompressor
+				sz := int64(len(stored))
+				cuts := []int64{0, 1, sz / 2, sz - 8, sz - 4, sz - 1}
+				if thorough {
+					for k := 0; k < 8 && sz > 0; k++ {
+						cuts = append(cuts, r.Int63n(sz))
+					}
+				}
+				for _, cut := range cuts {
+					if cut < 0 || cut >= sz {
+						continue
+					}
+					if e := os.WriteFile(p, stored[:cut], 0o644); e != nil {
+						return nil, e
+					}
+					os.Chtimes(p, fi.ModTime(), fi.ModTime())
+					o := runRestore(h, root, outDir, 0, false)
+					emitF(o, "truncated-object", cut)
+				}
+				if e := os.WriteFile(p, stored, 0o644); e != nil {
+					return nil, e
+				}
+				os.Chtimes(p, fi.ModTime(), fi.ModTime())
+			}
+		}
 	}
 
 	// any one segment removed
